@@ -287,14 +287,22 @@ Section Sim.
   Lemma attr_good : forall o, is_attr o = true -> good_obj o.
   Proof. destruct o; cbn; intros; try discriminate; exact I. Qed.
 
-  (* a scope state: documented contents agree with Python's namespace and are well-formed for the guard *)
-  Definition St (sc : scope) (s : st) (e : env) : Prop := agree_ns sc (contents s) e /\ good_c (contents s).
+  (* a scope state: documented contents agree with Python's namespace, are well-formed for the guard, and
+     builder.currentAttr never points at a property (so a string statement cannot replace a property's docstring) *)
+  Definition cur_ok (s : st) : Prop :=
+    forall n, cur s = Some n -> forall d a v, lookup n (contents s) <> Some (OAttr KProperty d a v).
+
+  Definition St (sc : scope) (s : st) (e : env) : Prop :=
+    agree_ns sc (contents s) e /\ good_c (contents s) /\ cur_ok s.
 
   Lemma St_nodup : forall sc s e, St sc s e -> NoDup (keys (contents s)).
   Proof. intros sc s e [H _]. inversion H; auto. Qed.
 
-  Lemma St_set_cur : forall sc s e x, St sc s e -> St sc (set_cur x s) e.
-  Proof. intros. exact H. Qed.
+  Lemma cur_ok_none : forall s, cur s = None -> cur_ok s.
+  Proof. intros s H n Hn. congruence. Qed.
+
+  Lemma St_set_cur_none : forall sc s e, St sc s e -> St sc (set_cur None s) e.
+  Proof. intros sc s e [HA [HG _]]. split; [exact HA|split; [exact HG|]]. apply cur_ok_none. reflexivity. Qed.
 
   Lemma St_set_imp : forall sc s e n x, St sc s e -> St sc (set_imp n x s) e.
   Proof. intros. exact H. Qed.
@@ -302,51 +310,59 @@ Section Sim.
   (* ---- visit_Expr on a string: only the docstring of an Attribute changes *)
   Lemma St_attach_doc : forall sc s e d, St sc s e -> St sc (attach_doc clean d s) e.
   Proof.
-    intros sc s e d HS. unfold attach_doc. destruct (cur s) as [n|]; [|exact HS].
-    apply St_set_cur.
+    intros sc s e d HS. unfold attach_doc. destruct (cur s) as [n|] eqn:Ec; [|exact HS].
     destruct (lookup n (contents s)) as [[| |k d0 a v]|] eqn:E;
-      try (rewrite upd_attr_noattr; [exact HS | intros; congruence]).
-    pose proof (St_nodup _ _ _ HS) as ND. destruct HS as [HA HG].
+      try (rewrite upd_attr_noattr; [apply St_set_cur_none; exact HS | intros; congruence]).
+    pose proof (St_nodup _ _ _ HS) as ND. destruct HS as [HA [HG HC]].
+    assert (Hk : k <> KProperty) by (intro Hk; subst k; exact (HC n Ec _ _ _ E)).
     pose proof (upd_attr_upd' n (fun k _ a v => OAttr k (Some (clean d)) a v) s k d0 a v ND E) as HU.
-    split.
+    split; [|split].
     - eapply inv_doc; [exact HA|exact (proj1 HU)| |].
       + intros v0 Hp Ha. inversion HA as [? ? ? R1 R2 R3 R4]; subst.
-        specialize (R4 _ _ _ E Hp Ha). inversion R4; subst; constructor; auto.
+        specialize (R4 _ _ _ E Hp Ha). inversion R4; subst; try congruence; constructor; auto.
       + inversion HA as [? ? ? R1 R2 R3 R4]; subst. destruct (R3 _ _ E) as [?|[? Hi]]; auto.
-    - eapply good_upd; eauto. exact Logic.I. cbn. discriminate.
+    - eapply good_upd; [exact HG|exact HU|exact Logic.I|cbn; discriminate].
+    - apply cur_ok_none. reflexivity.
   Qed.
 
   (* ---- _handleInstanceVar *)
   Lemma maybe_attribute_present : forall inh c n o, lookup n c = Some o -> maybe_attribute inh c n = is_attr o.
   Proof. intros. unfold maybe_attribute. rewrite H. reflexivity. Qed.
 
+  (* cur := Some n is fine when the entry written at n is not a property *)
+  Lemma cur_ok_some : forall s n o, lookup n (contents s) = Some o -> (forall d a v, o <> OAttr KProperty d a v) ->
+                                    cur_ok (set_cur (Some n) s).
+  Proof. intros s n o E Ho m Hm d a v. cbn in Hm. inversion Hm; subst m. cbn. rewrite E. intro H. inversion H. eapply Ho; eauto. Qed.
+
   Lemma St_hiv : forall inh a ann expr s e,
-      St ScClass s e -> is_property_val (plookup a e) = false ->
-      St ScClass (handle_instance_var true inh a ann expr s) e.
+      St ScClass s e -> St ScClass (handle_instance_var true inh a ann expr s) e.
   Proof.
-    intros inh a ann expr s e HS Hp. unfold handle_instance_var. cbn [negb].
+    intros inh a ann expr s e HS. unfold handle_instance_var. cbn [negb].
     destruct (maybe_attribute inh (contents s) a) eqn:Em; cbn [negb]; [|exact HS].
-    apply St_set_cur.
-    pose proof (St_nodup _ _ _ HS) as ND. destruct HS as [HA HG].
+    pose proof (St_nodup _ _ _ HS) as ND. destruct HS as [HA [HG HC]].
     inversion HA as [? ? ? R1 R2 R3 R4]; subst.
     set (f := fun (_ : akind) d a0 v => OAttr KInstanceVar d (set_ann a0 ann) (store_value v expr false)).
     destruct (lookup a (contents s)) as [o|] eqn:E.
     - rewrite (maybe_attribute_present _ _ _ _ E) in Em. destruct o as [| |k d an v]; try discriminate.
-      pose proof (upd_attr_upd' a f s k d an v ND E) as HU. split.
-      + eapply inv_doc; [exact HA|exact (proj1 HU)| |right; split; reflexivity].
-        intros v0 Hv0 Ha. specialize (R4 _ _ _ E Hv0 Ha). inversion R4; subst.
-        * rewrite Hv0 in Hp. discriminate.
-        * constructor. discriminate.
-      + eapply good_upd; eauto. exact Logic.I. cbn. discriminate.
+      assert (Hres : k <> KProperty ->
+                     St ScClass (set_cur (Some a) (upd_attr a f s)) e).
+      { intro Hk. pose proof (upd_attr_upd' a f s k d an v ND E) as HU. split; [|split].
+        + eapply inv_doc; [exact HA|exact (proj1 HU)| |right; split; reflexivity].
+          intros v0 Hv0 Ha. specialize (R4 _ _ _ E Hv0 Ha). inversion R4; subst; [congruence|].
+          constructor. discriminate.
+        + eapply good_upd; [exact HG|exact HU|exact Logic.I|cbn; discriminate].
+        + eapply cur_ok_some; [cbn; rewrite (proj2 (proj1 HU)), text_eqb_refl; reflexivity|]. subst f. cbn. intros; discriminate. }
+      destruct k; try (apply Hres; discriminate). split; [exact HA|split; [exact HG|exact HC]].
     - set (blank := OAttr KInstanceVar None None None).
       pose proof (add_obj_upd' a blank s ND) as HU1.
       assert (E1 : lookup a (contents (add_obj a blank s)) = Some blank).
       { rewrite (proj2 (proj1 HU1)). rewrite text_eqb_refl. reflexivity. }
       pose proof (upd_attr_upd' a f (add_obj a blank s) _ _ _ _ (proj1 (proj1 HU1)) E1) as HU2.
-      pose proof (upd_trans_attr _ _ _ _ _ _ HU1 eq_refl HU2) as HU. split.
+      pose proof (upd_trans_attr _ _ _ _ _ _ HU1 eq_refl HU2) as HU. split; [|split].
       + eapply inv_doc; [exact HA|exact (proj1 HU)| |right; split; reflexivity].
         intros v0 Hv0 Ha. exfalso. apply (R2 a); [|exact E]. unfold pdef. rewrite Hv0. rewrite Ha. reflexivity.
-      + eapply good_upd; eauto. exact Logic.I. cbn. discriminate.
+      + eapply good_upd; [exact HG|exact HU|exact Logic.I|cbn; discriminate].
+      + eapply cur_ok_some; [cbn; rewrite (proj2 (proj1 HU)), text_eqb_refl; reflexivity|]. subst f blank. cbn. intros; discriminate.
   Qed.
 
   (* ---- nested induction on statements *)
@@ -394,58 +410,32 @@ Section Sim.
   Qed.
 
   (* ---- walking a function body: only instance variables and their docstrings *)
-  Definition fwalk_ok (sc : scope) (inc : bool) (e : env) (x : stmt) : Prop :=
-    inc = true -> sc = ScClass /\ forall a, In a (self_targets x) -> is_property_val (plookup a e) = false.
-
-  Lemma fwalk_ok_suite : forall sc inc e (body : list stmt),
-      (inc = true -> sc = ScClass /\ forall a, In a (flat_map self_targets body) -> is_property_val (plookup a e) = false) ->
-      Forall (fwalk_ok sc inc e) body.
-  Proof.
-    intros sc inc e body H. apply Forall_forall. intros y Hy Hi. destruct (H Hi) as [Hs Ha]. split; auto.
-    intros a Hin. apply Ha. apply in_flat_map. eauto.
-  Qed.
-
   Lemma fwalk_suite : forall sc inc inh e body,
-      Forall (fun x => forall s, fwalk_ok sc inc e x -> St sc s e -> St sc (fwalk_stmt clean inc inh x s) e) body ->
-      Forall (fwalk_ok sc inc e) body ->
+      Forall (fun x => forall s, St sc s e -> St sc (fwalk_stmt clean inc inh x s) e) body ->
       forall s, St sc s e -> St sc (fold_left (fun s y => fwalk_stmt clean inc inh y s) body s) e.
   Proof.
-    intros sc inc inh e body HF HO. apply (fold_preserves (fun s => St sc s e) (fwalk_stmt clean inc inh)).
-    apply Forall_forall. intros y Hy s Hs. rewrite Forall_forall in HF, HO. apply HF; auto.
+    intros sc inc inh e body HF. apply (fold_preserves (fun s => St sc s e) (fwalk_stmt clean inc inh)). exact HF.
   Qed.
 
   Lemma fwalk_St : forall x sc inc inh e s,
-      fwalk_ok sc inc e x -> St sc s e -> St sc (fwalk_stmt clean inc inh x s) e.
+      (inc = true -> sc = ScClass) -> St sc s e -> St sc (fwalk_stmt clean inc inh x s) e.
   Proof.
     intro x. induction x as [nm ds a body IH|nm bs body IH|ts r|t an r|t r|d|t b o IHb IHo|b h o f IHb IHh IHo IHf|b IHb|t b o IHb IHo|b o IHb IHo|ns|]
       using stmt_ind'; intros sc inc inh e s Hok HS; cbn [fwalk_stmt]; auto.
     - (* Assign *)
-      assert (Hts : forall a, In (TSelf a) ts -> inc = true -> sc = ScClass /\ is_property_val (plookup a e) = false).
-      { intros a0 Hin Hi. destruct (Hok Hi) as [Hs Ha]. split; auto. apply Ha. cbn. apply in_flat_map. exists (TSelf a0). cbn. auto. }
-      clear Hok. revert s HS. induction ts as [|t ts IHts]; cbn; intros s HS; auto.
-      apply IHts; [intros; apply Hts; cbn; auto|].
-      destruct t as [n|ns|a0]; auto.
-      destruct inc; [|exact HS]. destruct (Hts a0 (or_introl eq_refl) eq_refl) as [Hs Hp]. subst sc.
-      apply St_hiv; auto.
+      revert s HS. induction ts as [|t ts IHts]; cbn; intros s HS; auto.
+      apply IHts. destruct t as [n|ns|a0]; auto.
+      destruct inc; [|exact HS]. rewrite (Hok eq_refl) in *. apply St_hiv; auto.
     - (* AnnAssign *)
       destruct t as [n|ns|a0]; auto.
-      destruct inc; [|exact HS]. destruct (Hok eq_refl) as [Hs Ha]. subst sc. apply St_hiv; auto. apply Ha. cbn. auto.
+      destruct inc; [|exact HS]. rewrite (Hok eq_refl) in *. apply St_hiv; auto.
     - (* ExprStr *) apply St_attach_doc. exact HS.
     - (* If *)
-      destruct t; auto; (eapply fwalk_suite; [eapply Forall_impl; [|exact IHb]; cbn; intros; eauto| |exact HS]);
-        apply fwalk_ok_suite; intro Hi; destruct (Hok Hi) as [Hs Ha]; split; auto; intros a0 Hin; apply Ha; cbn; apply in_or_app; auto.
-    - (* Try *)
-      eapply fwalk_suite; [eapply Forall_impl; [|exact IHb]; cbn; intros; eauto| |exact HS].
-      apply fwalk_ok_suite; intro Hi; destruct (Hok Hi) as [Hs Ha]; split; auto; intros a0 Hin; apply Ha; cbn; apply in_or_app; auto.
-    - (* With *)
-      eapply fwalk_suite; [eapply Forall_impl; [|exact IHb]; cbn; intros; eauto| |exact HS].
-      apply fwalk_ok_suite; intro Hi; destruct (Hok Hi) as [Hs Ha]; split; auto.
-    - (* For *)
-      eapply fwalk_suite; [eapply Forall_impl; [|exact IHb]; cbn; intros; eauto| |exact HS].
-      apply fwalk_ok_suite; intro Hi; destruct (Hok Hi) as [Hs Ha]; split; auto; intros a0 Hin; apply Ha; cbn; apply in_or_app; auto.
-    - (* While *)
-      eapply fwalk_suite; [eapply Forall_impl; [|exact IHb]; cbn; intros; eauto| |exact HS].
-      apply fwalk_ok_suite; intro Hi; destruct (Hok Hi) as [Hs Ha]; split; auto; intros a0 Hin; apply Ha; cbn; apply in_or_app; auto.
+      destruct t; auto; (eapply fwalk_suite; [eapply Forall_impl; [|exact IHb]; cbn; intros; eauto|exact HS]).
+    - eapply fwalk_suite; [eapply Forall_impl; [|exact IHb]; cbn; intros; eauto|exact HS].
+    - eapply fwalk_suite; [eapply Forall_impl; [|exact IHb]; cbn; intros; eauto|exact HS].
+    - eapply fwalk_suite; [eapply Forall_impl; [|exact IHb]; cbn; intros; eauto|exact HS].
+    - eapply fwalk_suite; [eapply Forall_impl; [|exact IHb]; cbn; intros; eauto|exact HS].
   Qed.
 
   (* ---- a suite that binds nothing leaves the namespace as it is (only attribute docstrings may change) *)
@@ -487,22 +477,27 @@ Section Sim.
                (match lookup n (contents s) with Some _ => s | None => add_obj n (OAttr default None None None) s end))
          (bind n (VData pv) e).
   Proof.
-    intros sc s e default flow n ann expr aug pv HS Hd Hnf. unfold handle_var. apply St_set_cur.
-    pose proof (St_nodup _ _ _ HS) as ND. destruct HS as [HA HG].
+    intros sc s e default flow n ann expr aug pv HS Hd Hnf. unfold handle_var.
+    pose proof (St_nodup _ _ _ HS) as ND. destruct HS as [HA [HG HC]].
     set (f := fun k (d : option text) a v => OAttr (handle_constant n flow default k v expr) d (set_ann a ann) (store_value v expr aug)).
+    assert (Hfin : forall s1 o, upd (contents s) n o (contents s1) -> (exists k d a v, o = OAttr k d a v /\ k <> KProperty) ->
+                   St sc (set_cur (if aug then None else Some n) s1) (bind n (VData pv) e)).
+    { intros s1 o HU [k [d [a [v [Ho Hk]]]]]. subst o. split; [|split]; cbn [contents set_cur].
+      - eapply inv_point; [exact HA|exact (proj1 HU)| |reflexivity]. constructor. exact Hk.
+      - eapply good_upd; [exact HG|exact HU|exact Logic.I|cbn; discriminate].
+      - destruct aug; [apply cur_ok_none; reflexivity|].
+        eapply cur_ok_some; [rewrite (proj2 (proj1 HU)), text_eqb_refl; reflexivity|]. intros d1 a1 v1 Heq. inversion Heq. congruence. }
     destruct (lookup n (contents s)) as [o|] eqn:E.
     - destruct (doc_entry_of_data _ _ _ _ _ HA E Hnf) as [k [d [a [v [Ho Hk]]]]]. subst o.
-      pose proof (upd_attr_upd' n f s k d a v ND E) as HU. split.
-      + eapply inv_point; [exact HA|exact (proj1 HU)| |reflexivity]. constructor. apply handle_constant_not_property; auto.
-      + eapply good_upd; eauto. exact Logic.I. cbn. discriminate.
+      pose proof (upd_attr_upd' n f s k d a v ND E) as HU.
+      eapply Hfin; [exact HU|]. subst f. cbn. do 4 eexists. split; [reflexivity|]. apply handle_constant_not_property; auto.
     - set (blank := OAttr default None None None).
       pose proof (add_obj_upd' n blank s ND) as HU1.
       assert (E1 : lookup n (contents (add_obj n blank s)) = Some blank).
       { rewrite (proj2 (proj1 HU1)). rewrite text_eqb_refl. reflexivity. }
       pose proof (upd_attr_upd' n f (add_obj n blank s) _ _ _ _ (proj1 (proj1 HU1)) E1) as HU2.
-      pose proof (upd_trans_attr _ _ _ _ _ _ HU1 eq_refl HU2) as HU. split.
-      + eapply inv_point; [exact HA|exact (proj1 HU)| |reflexivity]. constructor. apply handle_constant_not_property; auto.
-      + eapply good_upd; eauto. exact Logic.I. cbn. discriminate.
+      pose proof (upd_trans_attr _ _ _ _ _ _ HU1 eq_refl HU2) as HU.
+      eapply Hfin; [exact HU|]. subst f blank. cbn. do 4 eexists. split; [reflexivity|]. apply handle_constant_not_property; auto.
   Qed.
 
   Lemma meta_tables : module_meta_vars = py_meta_names.
@@ -631,30 +626,33 @@ Section Sim.
     - inversion Ev; subst. cbn in Hpy. specialize (Hinh _ eq_refl). apply (St_data_target sc flow inh outer n ann (Some (RLit lv)) false (Some lv) s e e'); auto. right; exact I.
     - discriminate.
     - destruct (text_eqb f p_staticmethod || text_eqb f p_classmethod) eqn:Ef.
-      + (* the old-style wrapping of a method of this class body *)
+      + (* the old-style wrapping of a (possibly already wrapped) method of this class body *)
         destruct sc; cbn in Ev; [discriminate|].
         destruct args as [|a [|? ?]]; try discriminate.
         destruct (text_eqb n a) eqn:Ena; [|discriminate]. apply text_eqb_eq in Ena. subst a.
-        destruct (plookup n e) as [[asy [| | |] d| | |]|] eqn:Ep; try discriminate.
-        inversion Ev; subst v. cbn in Hpy. inversion Hpy; subst e'. clear Hpy Ev.
+        destruct (plookup n e) as [[asy w0 d| | |]|] eqn:Ep; try discriminate.
+        assert (Hw0 : w0 <> WProp /\ v = VFun asy (if text_eqb f p_staticmethod then WStatic else WClassM) d).
+        { destruct w0; try discriminate; inversion Ev; split; auto; discriminate. }
+        destruct Hw0 as [Hw0 Hv]. subst v. cbn in Hpy. inversion Hpy; subst e'. clear Hpy Ev.
         cbn [handle_assignment].
-        pose proof (St_nodup _ _ _ HS) as ND. destruct HS as [HA HG].
+        pose proof (St_nodup _ _ _ HS) as ND. destruct HS as [HA [HG HC]].
         inversion HA as [? ? ? R1 R2 R3 R4]; subst.
         assert (Hd : pdef n e = true) by (unfold pdef; rewrite Ep; reflexivity).
         destruct (lookup n (contents s)) as [o|] eqn:E; [|exfalso; eapply R2; eauto].
-        specialize (R4 _ _ _ E Ep eq_refl). inversion R4; subst.
-        match goal with H : fkind_of ScClass WNone = Some _ |- _ => cbn in H; inversion H; subst end.
+        specialize (R4 _ _ _ E Ep eq_refl). inversion R4; subst; [|congruence].
         assert (Hmem : mem f oldschool_names = true).
         { rewrite oldschool_table. cbn. apply orb_true_iff in Ef. destruct Ef as [Ef|Ef]; rewrite Ef; cbn; auto. apply orb_true_r. }
         unfold oldschool. rewrite text_eqb_refl, Hmem, E. cbn [andb].
-        set (k' := if text_eqb f t_staticmethod then KStaticMethod else if text_eqb f t_classmethod then KClassMethod else KMethod).
+        set (k' := if text_eqb f t_staticmethod then KStaticMethod else if text_eqb f t_classmethod then KClassMethod else k).
         pose proof (replace_upd n (OFun k' asy (option_map clean d)) s _ ND E) as HU.
-        split; cbn [contents set_contents].
+        split; [|split]; cbn [contents set_contents].
         * eapply inv_point; [exact HA|exact (proj1 HU)| |reflexivity].
           constructor; auto. subst k'. change t_staticmethod with p_staticmethod. change t_classmethod with p_classmethod.
           destruct (text_eqb f p_staticmethod) eqn:E1; [reflexivity|].
           cbn in Ef. rewrite Ef. reflexivity.
-        * eapply good_upd; eauto. exact Logic.I. intros _. apply (proj1 HG n _ (lookup_In _ _ _ E)). reflexivity.
+        * eapply good_upd; [exact HG|exact HU|exact Logic.I|]. intros _. apply (proj1 HG n _ (lookup_In _ _ _ E)). reflexivity.
+        * intros m Hm d1 a1 v1. cbn in Hm. cbn. rewrite (proj2 (proj1 HU)).
+          destruct (text_eqb m n) eqn:Emn; [discriminate|]. exact (HC m Hm d1 a1 v1).
       + destruct (text_eqb f p_property); [discriminate|]. inversion Ev; subst. cbn in Hpy. specialize (Hinh _ eq_refl).
         apply (St_data_target sc flow inh outer n ann (Some (RCall f args)) false None s e e'); auto.
         right. unfold plain_expr. rewrite oldschool_table. cbn.
@@ -662,12 +660,12 @@ Section Sim.
     - inversion Ev; subst. cbn in Hpy. specialize (Hinh _ eq_refl). apply (St_data_target sc flow inh outer n ann (Some ROther) false None s e e'); auto. right; exact I.
   Qed.
 
-  Lemma St_assign : forall sc flow inh outer ts r s e e' strict,
-      St sc s e -> py_stmt strict (Assign ts r) (pscope_of sc) e = Some e' ->
+  Lemma St_assign : forall sc flow inh outer ts r s e e',
+      St sc s e -> py_stmt (Assign ts r) (pscope_of sc) e = Some e' ->
       (forall n, In n (assigned_names (Assign ts r)) -> sc = ScClass -> lookup n inh <> Some SNonAttr) ->
       St sc (walk_stmt clean (Assign ts r) sc flow inh outer s) e'.
   Proof.
-    intros sc flow inh outer ts r s e e' strict HS Hpy Hinh0.
+    intros sc flow inh outer ts r s e e' HS Hpy Hinh0.
     assert (Hinh : is_wrapping ts r = false ->
                    forall n, In n (flat_map target_names ts) -> sc = ScClass -> lookup n inh <> Some SNonAttr).
     { intros Hw. cbn [assigned_names] in Hinh0. rewrite Hw in Hinh0. exact Hinh0. }
@@ -712,23 +710,23 @@ Section Sim.
       + destruct (text_eqb f p_property); discriminate.
   Qed.
 
-  Lemma St_annassign : forall sc flow inh outer t ann r s e e' strict,
-      St sc s e -> py_stmt strict (AnnAssign t ann r) (pscope_of sc) e = Some e' ->
+  Lemma St_annassign : forall sc flow inh outer t ann r s e e',
+      St sc s e -> py_stmt (AnnAssign t ann r) (pscope_of sc) e = Some e' ->
       (forall n, In n (target_names t) -> sc = ScClass -> lookup n inh <> Some SNonAttr) ->
       St sc (walk_stmt clean (AnnAssign t ann r) sc flow inh outer s) e'.
   Proof.
-    intros sc flow inh outer t ann r s e e' strict HS Hpy Hinh. cbn [walk_stmt py_stmt] in *.
+    intros sc flow inh outer t ann r s e e' HS Hpy Hinh. cbn [walk_stmt py_stmt] in *.
     destruct t as [n|ns|a]; try discriminate. destruct r as [r|]; [|discriminate].
     destruct (assign_value (pscope_of sc) e [TName n] r) as [v|] eqn:Ev; [|discriminate].
     eapply St_single; eauto. intros; apply Hinh; auto. cbn. auto.
   Qed.
 
-  Lemma St_augassign : forall sc flow inh outer t r s e e' strict,
-      St sc s e -> py_stmt strict (AugAssign t r) (pscope_of sc) e = Some e' ->
+  Lemma St_augassign : forall sc flow inh outer t r s e e',
+      St sc s e -> py_stmt (AugAssign t r) (pscope_of sc) e = Some e' ->
       (forall n, In n (target_names t) -> sc = ScClass -> lookup n inh <> Some SNonAttr) ->
       St sc (walk_stmt clean (AugAssign t r) sc flow inh outer s) e'.
   Proof.
-    intros sc flow inh outer t r s e e' strict HS Hpy Hinh. cbn [walk_stmt py_stmt] in *.
+    intros sc flow inh outer t r s e e' HS Hpy Hinh. cbn [walk_stmt py_stmt] in *.
     destruct t as [n|ns|a]; try discriminate.
     destruct (mem n py_meta_names) eqn:Em; [discriminate|].
     destruct (plookup n e) as [[| |w|]|] eqn:Ep; try discriminate. inversion Hpy; subst e'.
@@ -825,13 +823,11 @@ Section Sim.
 
   (* ---- _handleFunctionDef *)
   Lemma St_def : forall sc flow inh outer nm ds a body s e e',
-      St sc s e -> py_stmt true (Def nm ds a body) (pscope_of sc) e = Some e' -> In nm DN ->
+      St sc s e -> py_stmt (Def nm ds a body) (pscope_of sc) e = Some e' -> In nm DN ->
       St sc (walk_stmt clean (Def nm ds a body) sc flow inh outer s) e'.
   Proof.
     intros sc flow inh outer nm ds a body s e e' HS Hpy Hdn. cbn [py_stmt] in Hpy.
     destruct (def_wrap (pscope_of sc) ds WNone) as [w|] eqn:Ew; [|discriminate].
-    cbn [andb] in Hpy.
-    destruct (existsb (fun a0 => is_property_val (plookup a0 e)) (flat_map self_targets body)) eqn:Ex; [discriminate|].
     inversion Hpy; subst e'. clear Hpy.
     pose proof (St_nodup _ _ _ HS) as ND.
     assert (Hfl : deco_flags (match sc with ScClass => true | ScModule => false end) nm ds = flags_of nm w /\
@@ -840,26 +836,22 @@ Section Sim.
       - destruct (deco_flags_module nm ds w Ew) as [Hw Hf]. subst. auto.
       - split; [|discriminate]. unfold deco_flags. apply (deco_flags_class nm ds WNone w Ew). }
     destruct Hfl as [Hfl Hmod]. cbn [walk_stmt]. rewrite Hfl.
+    assert (Hadd : forall o, agree_obj sc o (VFun a w (docstring_of body)) -> (is_attr o = false -> In nm DN) ->
+                             (match o with OClass _ _ _ _ _ => False | _ => True end) ->
+                             St sc (set_cur None (add_obj nm o s)) (bind nm (VFun a w (docstring_of body)) e)).
+    { intros o Ho Hn Hcl. pose proof (add_obj_upd' nm o s ND) as HU. destruct HS as [HA [HG HC]]. split; [|split].
+      - eapply inv_point; [exact HA|exact (proj1 HU)|exact Ho|reflexivity].
+      - eapply good_upd; [exact HG|exact HU| |exact Hn]. destruct o; try exact Logic.I. contradiction.
+      - apply cur_ok_none. reflexivity. }
     destruct w; cbn [flags_of f_prop f_name].
     4: { (* property *)
       destruct sc; [specialize (Hmod eq_refl); discriminate|].
-      apply St_set_cur. pose proof (add_obj_upd' nm (OAttr KProperty (clean_doc clean body) None None) s ND) as HU.
-      destruct HS as [HA HG]. split.
-      - eapply inv_point; [exact HA|exact (proj1 HU)| |reflexivity]. constructor.
-      - eapply good_upd; [exact HG|exact HU|exact Logic.I|cbn; discriminate]. }
-    all: apply St_set_cur; unfold fwalk_body;
+      apply Hadd; [constructor; reflexivity|cbn; discriminate|exact Logic.I]. }
+    all: apply St_set_cur_none; unfold fwalk_body;
       (eapply fwalk_suite;
-       [apply Forall_forall; intros y _ s0 Hok0 HS0; apply fwalk_St; assumption
-       | apply fwalk_ok_suite; intros Hi; destruct sc; [discriminate|]; split; [reflexivity|];
-         intros a0 Hin; rewrite plookup_bind; destruct (text_eqb a0 nm); [reflexivity|];
-         apply (existsb_false _ _ Ex); exact Hin
-       | ]);
-      apply St_set_cur;
-      match goal with |- St _ (add_obj _ ?o _) _ => pose proof (add_obj_upd' nm o s ND) as HU end;
-      destruct HS as [HA HG]; (split;
-        [ eapply inv_point; [exact HA|exact (proj1 HU)| |reflexivity]; constructor; [|reflexivity];
-          destruct sc; try (specialize (Hmod eq_refl); discriminate); reflexivity
-        | eapply good_upd; [exact HG|exact HU|exact Logic.I|intros _; exact Hdn] ]).
+       [apply Forall_forall; intros y _ s0 HS0; apply fwalk_St; [intros Hi; destruct sc; [discriminate Hi|reflexivity]|exact HS0]|]);
+      (apply Hadd; [constructor; [|reflexivity]; destruct sc; try (specialize (Hmod eq_refl); discriminate); reflexivity
+                   |intros _; exact Hdn|exact Logic.I]).
   Qed.
 
   (* ---- maps over the documented objects that keep what agree_ns looks at *)
@@ -969,8 +961,9 @@ Section Sim.
   Lemma imps_hiv : forall inc inh a ann expr s, imps (handle_instance_var inc inh a ann expr s) = imps s.
   Proof.
     intros. unfold handle_instance_var. destruct (negb inc); [reflexivity|].
-    destruct (negb (maybe_attribute inh (contents s) a)); [reflexivity|]. cbn. rewrite imps_upd_attr.
-    destruct (lookup a (contents s)); [reflexivity|apply imps_add_obj].
+    destruct (negb (maybe_attribute inh (contents s) a)); [reflexivity|].
+    destruct (lookup a (contents s)) as [[| |[] d an v]|]; try reflexivity; cbn; rewrite imps_upd_attr; try reflexivity.
+    apply imps_add_obj.
   Qed.
 
   Lemma imps_handle_var : forall default flow n ann expr aug s, imps (handle_var default flow n ann expr aug s) = imps s.
@@ -1061,17 +1054,17 @@ Section Sim.
   Qed.
 
   Definition imps_step_ok (x : stmt) : Prop :=
-    forall sc flow inh outer s e e' strict,
-      imps_ok s e -> py_stmt strict x (pscope_of sc) e = Some e' -> imps_ok (walk_stmt clean x sc flow inh outer s) e'.
+    forall sc flow inh outer s e e',
+      imps_ok s e -> py_stmt x (pscope_of sc) e = Some e' -> imps_ok (walk_stmt clean x sc flow inh outer s) e'.
 
   Lemma imps_suite : forall body, Forall imps_step_ok body ->
-      forall sc flow inh outer s e e' strict,
-        imps_ok s e -> ofold (fun y e' => py_stmt strict y (pscope_of sc) e') body e = Some e' ->
+      forall sc flow inh outer s e e',
+        imps_ok s e -> ofold (fun y e' => py_stmt y (pscope_of sc) e') body e = Some e' ->
         imps_ok (fold_left (fun st y => walk_stmt clean y sc flow inh outer st) body s) e'.
   Proof.
-    intros body HF. induction HF as [|y body Hy _ IH]; cbn [fold_left ofold]; intros sc flow inh outer s e e' strict HI Hpy.
+    intros body HF. induction HF as [|y body Hy _ IH]; cbn [fold_left ofold]; intros sc flow inh outer s e e' HI Hpy.
     - inversion Hpy; subst. exact HI.
-    - destruct (py_stmt strict y (pscope_of sc) e) as [e1|] eqn:E1; [|discriminate]. eapply IH; eauto.
+    - destruct (py_stmt y (pscope_of sc) e) as [e1|] eqn:E1; [|discriminate]. eapply IH; eauto.
   Qed.
 
   Lemma ofold_bind_data_mono : forall ns e e' v,
@@ -1103,17 +1096,17 @@ Section Sim.
   Theorem imps_step : forall x, imps_step_ok x.
   Proof.
     intro x. induction x as [nm ds a body IH|nm bs body IH|ts r|t an r|t r|d|t b o IHb IHo|b h o f IHb IHh IHo IHf|b IHb|t b o IHb IHo|b o IHb IHo|ns|]
-      using stmt_ind'; intros sc flow inh outer s e e' strict HI Hpy.
+      using stmt_ind'; intros sc flow inh outer s e e' HI Hpy.
     - (* Def *)
       cbn [py_stmt] in Hpy. destruct (def_wrap (pscope_of sc) ds WNone); [|discriminate].
-      match type of Hpy with (if ?c then _ else _) = _ => destruct c; [discriminate|] end. inversion Hpy; subst.
+      inversion Hpy; subst.
       eapply imps_ok_mono; [|intros; apply plookup_bind_mono; eassumption|exact HI].
       cbn [walk_stmt]. destruct (f_prop _); cbn; [apply imps_add_obj|].
       unfold fwalk_body. rewrite (fold_imps (fwalk_stmt clean _ inh)); [cbn; apply imps_add_obj|].
       apply Forall_forall. intros; apply fwalk_imps.
     - (* Class *)
-      cbn [py_stmt] in Hpy. destruct (bases_exc strict e bs); [|discriminate].
-      destruct (ofold (fun y e'0 => py_stmt strict y PClass e'0) body []); [|discriminate]. inversion Hpy; subst.
+      cbn [py_stmt] in Hpy. destruct (bases_exc e bs); [|discriminate].
+      destruct (ofold (fun y e'0 => py_stmt y PClass e'0) body []); [|discriminate]. inversion Hpy; subst.
       eapply imps_ok_mono; [|intros; apply plookup_bind_mono; eassumption|exact HI].
       cbn [walk_stmt]. cbn. apply imps_add_obj.
     - (* Assign *)
@@ -1177,30 +1170,25 @@ Section Sim.
     intros l1 l2 H b Hb. rewrite forallb_forall in H. apply H. apply mem_In. exact Hb.
   Qed.
 
-  (* the regenerated table against CPython's builtin exception hierarchy: every name of the table is a builtin
-     exception class, and every builtin exception class except the three new ones is in the table *)
+  (* the regenerated table against CPython's builtin exception hierarchy (3.12): every name of the table is a builtin
+     exception class, and every builtin exception class is in the table (since fix 7fd5e3f) *)
   Lemma std_table_sound : forall b, mem b std_lib_exceptions = true -> mem b py_builtin_exceptions = true.
   Proof. apply mem_forall. vm_compute. reflexivity. Qed.
 
-  Lemma std_table_complete : forall b, mem b py_builtin_exceptions = true ->
-                                       mem b (py_new_exceptions ++ std_lib_exceptions) = true.
+  Lemma std_table_complete : forall b, mem b py_builtin_exceptions = true -> mem b std_lib_exceptions = true.
   Proof. apply mem_forall. vm_compute. reflexivity. Qed.
 
-  Lemma mem_app : forall b l1 l2, mem b (l1 ++ l2) = mem b l1 || mem b l2.
-  Proof. intros. unfold mem. apply existsb_app. Qed.
-
-  Lemma builtin_exc_agree : forall b x,
-      mem b py_new_exceptions = false -> py_builtin_class b = Some x -> mem b std_lib_exceptions = x.
+  Lemma builtin_exc_agree : forall b x, py_builtin_class b = Some x -> mem b std_lib_exceptions = x.
   Proof.
-    intros b x Hn H. unfold py_builtin_class in H. destruct (mem b py_builtin_exceptions) eqn:E.
-    - inversion H; subst. apply std_table_complete in E. rewrite mem_app, Hn in E. exact E.
+    intros b x H. unfold py_builtin_class in H. destruct (mem b py_builtin_exceptions) eqn:E.
+    - inversion H; subst. apply std_table_complete. exact E.
     - destruct (mem b py_builtin_plain); inversion H; subst.
       destruct (mem b std_lib_exceptions) eqn:E2; auto. apply std_table_sound in E2. congruence.
   Qed.
 
   Lemma base_exc_agree : forall s e b x,
       agree_ns ScModule (contents s) e -> imps_ok s e ->
-      base_exc_py true e b = Some x -> base_exc (resolve [(contents s, imps s)] b) = x.
+      base_exc_py e b = Some x -> base_exc (resolve [(contents s, imps s)] b) = x.
   Proof.
     intros s e b x HA HI H. inversion HA as [? ? ? R1 R2 R3 R4]; subst. unfold base_exc_py in H. cbn [resolve].
     destruct (plookup b e) as [v|] eqn:Ep.
@@ -1214,18 +1202,17 @@ Section Sim.
       rewrite E.
       assert (Ei : lookup b (imps s) = None).
       { destruct (lookup b (imps s)) eqn:Ei; auto. exfalso. apply (HI b); [rewrite Ei; discriminate|exact Ep]. }
-      rewrite Ei. cbn. cbn [andb] in H. destruct (mem b py_new_exceptions) eqn:En; [discriminate|].
-      apply builtin_exc_agree; auto.
+      rewrite Ei. cbn. apply builtin_exc_agree; auto.
   Qed.
 
   Lemma bases_exc_agree : forall s e bs x,
       agree_ns ScModule (contents s) e -> imps_ok s e ->
-      bases_exc true e bs = Some x -> existsb base_exc (map (resolve [(contents s, imps s)]) bs) = x.
+      bases_exc e bs = Some x -> existsb base_exc (map (resolve [(contents s, imps s)]) bs) = x.
   Proof.
     intros s e bs. induction bs as [|b bs IH]; cbn [bases_exc map existsb]; intros x HA HI H.
     - inversion H; reflexivity.
-    - destruct (base_exc_py true e b) as [x1|] eqn:E1; [|discriminate].
-      destruct (bases_exc true e bs) as [x2|] eqn:E2; [|discriminate]. inversion H; subst.
+    - destruct (base_exc_py e b) as [x1|] eqn:E1; [|discriminate].
+      destruct (bases_exc e bs) as [x2|] eqn:E2; [|discriminate]. inversion H; subst.
       rewrite (base_exc_agree _ _ _ _ HA HI E1). rewrite (IH _ HA HI eq_refl). reflexivity.
   Qed.
 
@@ -1235,7 +1222,7 @@ Section Sim.
       St sc s e -> good_chain outer -> imps_ok s e -> (sc = ScModule -> outer = []) ->
       (forall n, In n (assigned_names x) -> sc = ScClass -> lookup n inh <> Some SNonAttr) ->
       no_inherited_shadow DN x = true -> incl (def_names x) DN ->
-      py_stmt true x (pscope_of sc) e = Some e' ->
+      py_stmt x (pscope_of sc) e = Some e' ->
       St sc (walk_stmt clean x sc flow inh outer s) e'.
 
   Lemma suite_step : forall body, Forall step_ok body ->
@@ -1243,12 +1230,12 @@ Section Sim.
         St sc s e -> good_chain outer -> imps_ok s e -> (sc = ScModule -> outer = []) ->
         (forall n, In n (flat_map assigned_names body) -> sc = ScClass -> lookup n inh <> Some SNonAttr) ->
         forallb (no_inherited_shadow DN) body = true -> incl (flat_map def_names body) DN ->
-        ofold (fun y e' => py_stmt true y (pscope_of sc) e') body e = Some e' ->
+        ofold (fun y e' => py_stmt y (pscope_of sc) e') body e = Some e' ->
         St sc (fold_left (fun st y => walk_stmt clean y sc flow inh outer st) body s) e'.
   Proof.
     intros body HF. induction HF as [|y body Hy _ IH]; cbn [fold_left ofold]; intros sc flow inh outer s e e' HS HG HI Hout Hinh Hsh Hdn Hpy.
     - inversion Hpy; subst. exact HS.
-    - destruct (py_stmt true y (pscope_of sc) e) as [e1|] eqn:E1; [|discriminate].
+    - destruct (py_stmt y (pscope_of sc) e) as [e1|] eqn:E1; [|discriminate].
       cbn in Hsh. apply andb_true_iff in Hsh. destruct Hsh as [Hsh1 Hsh2].
       eapply IH; [|exact HG|eapply imps_step; eauto|exact Hout| |exact Hsh2| |exact Hpy].
       + eapply Hy; eauto.
@@ -1258,8 +1245,10 @@ Section Sim.
       + intros n Hn. apply Hdn. cbn. apply in_or_app. auto.
   Qed.
 
-  Lemma St_contents_eq : forall sc s s' e, contents s' = contents s -> St sc s e -> St sc s' e.
-  Proof. intros sc s s' e H HS. unfold St in *. rewrite H. exact HS. Qed.
+  Lemma St_contents_eq : forall sc s s' e, contents s' = contents s -> cur s' = cur s -> St sc s e -> St sc s' e.
+  Proof.
+    intros sc s s' e H Hc [HA [HG HC]]. unfold St, cur_ok in *. rewrite H, Hc. auto.
+  Qed.
 
   Lemma bind_aux_St : forall sc s e n e', St sc s e -> bind_aux n e = Some e' -> St sc s e'.
   Proof.
@@ -1269,8 +1258,9 @@ Section Sim.
     destruct Hp as [Hp He]. subst. apply inv_aux; auto.
   Qed.
 
-  Lemma import_contents : forall ns s, contents (fold_left (fun s n => set_imp n None s) ns s) = contents s.
-  Proof. induction ns as [|n ns IH]; cbn; intros s; auto. rewrite IH. reflexivity. Qed.
+  Lemma import_contents : forall ns s, contents (fold_left (fun s n => set_imp n None s) ns s) = contents s
+                                       /\ cur (fold_left (fun s n => set_imp n None s) ns s) = cur s.
+  Proof. induction ns as [|n ns IH]; cbn; intros s; auto. destruct (IH (set_imp n None s)) as [H1 H2]. rewrite H1, H2. auto. Qed.
 
   Lemma incl_app_l : forall {X} (a b c : list X), incl (a ++ b) c -> incl a c.
   Proof. intros X a b c H x Hx. apply H. apply in_or_app. auto. Qed.
@@ -1284,15 +1274,15 @@ Section Sim.
     - (* Def *) eapply St_def; eauto. apply Hdn. cbn. auto.
     - (* Class *)
       cbn [py_stmt] in Hpy.
-      destruct (bases_exc true e bs) as [xc|] eqn:Eb; [|discriminate].
-      destruct (ofold (fun y e'0 => py_stmt true y PClass e'0) body []) as [ns|] eqn:En; [|discriminate].
+      destruct (bases_exc e bs) as [xc|] eqn:Eb; [|discriminate].
+      destruct (ofold (fun y e'0 => py_stmt y PClass e'0) body []) as [ns|] eqn:En; [|discriminate].
       inversion Hpy; subst e'. clear Hpy.
       cbn [walk_stmt].
       set (chain := (contents s, imps s) :: outer).
       set (rs := map (resolve chain) bs).
       set (ih := flat_map base_inh rs).
       set (O1 := OClass (existsb base_exc rs) (clean_doc clean body) [] [] ih).
-      pose proof (St_nodup _ _ _ HS) as ND. destruct HS as [HA HGc].
+      pose proof (St_nodup _ _ _ HS) as ND. destruct HS as [HA [HGc HCc]].
       assert (HGchain : good_chain chain).
       { constructor; auto. cbn. exact (proj2 HGc). }
       assert (Hih : inh_ok ih) by (apply inherited_ok; exact HGchain).
@@ -1309,7 +1299,7 @@ Section Sim.
                                           ((contents (set_cur None (add_obj nm O1 s)), imps (set_cur None (add_obj nm O1 s))) :: outer) st)
                            body empty_st) ns).
       { eapply (suite_step body IH ScClass); [| | | | |exact Hsh2| |exact En].
-        - split; [apply agree_empty|]. split; [intros n o []|intros n o []].
+        - split; [apply agree_empty|]. split; [split; [intros n o []|intros n o []]|apply cur_ok_none; reflexivity].
         - constructor; auto. cbn. exact (proj2 HG1).
         - intros n Hn. cbn in Hn. congruence.
         - discriminate.
@@ -1320,12 +1310,12 @@ Section Sim.
         - intros n Hn. apply Hdn. cbn. auto. }
       set (inner := fold_left _ body empty_st) in *.
       set (O2 := OClass (existsb base_exc rs) (clean_doc clean body) (infer_all (contents inner)) (old inner) ih).
-      apply St_set_cur. cbn [contents set_cur set_contents].
+      cbn [contents set_cur set_contents].
       assert (E1 : lookup nm (contents (add_obj nm O1 s)) = Some O1).
       { rewrite (proj2 (proj1 HU1)). rewrite text_eqb_refl. reflexivity. }
       pose proof (replace_upd nm O2 (add_obj nm O1 s) _ (proj1 (proj1 HU1)) E1) as HU2.
-      destruct Hinner as [HAi HGi].
-      split; cbn [contents].
+      destruct Hinner as [HAi [HGi _]].
+      split; [|split]; cbn [contents]; [| |apply cur_ok_none; reflexivity].
       + eapply inv_point; [exact HA|eapply upd_fun_trans; [exact (proj1 HU1)|exact (proj1 HU2)]| |reflexivity].
         constructor; [reflexivity|apply agree_infer_all; exact HAi|].
         intros Hsc. subst sc. specialize (Hout eq_refl). subst outer. subst rs chain. apply (bases_exc_agree s e bs xc HA HI Eb).
@@ -1366,7 +1356,7 @@ Section Sim.
       eapply (suite_step b IHb sc _ inh outer s e e');
         [exact HS|exact HG|exact HI|exact Hout|intros; apply Hinh; auto; apply in_or_app; auto|exact Hsb|eapply incl_app_l; exact Hdn|exact Hpy].
     - (* Import *)
-      cbn [py_stmt walk_stmt] in *. apply (St_contents_eq sc s); [apply import_contents|].
+      cbn [py_stmt walk_stmt] in *. apply (St_contents_eq sc s); [apply import_contents|apply import_contents|].
       clear - HS Hpy. revert e HS Hpy. induction ns as [|n ns IHn]; cbn; intros e HS Hpy.
       + inversion Hpy; subst; exact HS.
       + destruct (bind_aux n e) as [e1|] eqn:Ea; [|discriminate]. eapply IHn; [|exact Hpy]. eapply bind_aux_St; eauto.
@@ -1395,7 +1385,7 @@ Proof.
              (fun sc o v => forall inh n, agree_obj clean sc (post_obj inh n o) v)
              (fun sc c e => forall inh, agree_ns clean sc (post_contents inh c) e)).
     - intros sc k a d w d' Hk Hd inh n. cbn. constructor; auto.
-    - intros d an va a d' inh n. cbn. constructor.
+    - intros d an va a d' Hd inh n. cbn. constructor; auto.
     - intros sc x d c oo ih x' d' ns Hd _ IH Hx inh n. cbn. constructor; auto. apply (IH ih).
     - intros sc k d an va v Hk inh n. cbn. destruct k; try (constructor; assumption).
       destruct (inherits_ivar inh n); constructor; discriminate.
@@ -1428,7 +1418,7 @@ Proof.
                   (fold_left (fun st y => walk_stmt clean y ScModule false [] [] st) prog empty_st) e).
   { eapply (suite_step clean DN prog); try exact Hpy.
     - apply Forall_forall. intros x _. apply step.
-    - split; [apply agree_empty|]. split; intros n o [].
+    - split; [apply agree_empty|]. split; [split; intros n o []|apply cur_ok_none; reflexivity].
     - constructor.
     - intros n Hn. cbn in Hn. congruence.
     - reflexivity.
@@ -1554,12 +1544,11 @@ Proof.
     eapply Hgen; [exact ND1|]. rewrite L1, text_eqb_refl. reflexivity.
 Qed.
 
-(* a string statement after a def that is not a property, or after a class, is nobody's docstring *)
+(* a string statement after a def (property or not: fix fbfbc45), or after a class, is nobody's docstring *)
 Lemma string_after_def_ignored : forall clean sc flow inh outer nm ds a body d s,
-    f_prop (deco_flags (match sc with ScClass => true | ScModule => false end) nm ds) = false ->
     let s1 := walk_stmt clean (Def nm ds a body) sc flow inh outer s in
     walk_stmt clean (ExprStr d) sc flow inh outer s1 = s1.
-Proof. intros clean sc flow inh outer nm ds a body d s Hf. cbn [walk_stmt]. rewrite Hf. reflexivity. Qed.
+Proof. intros clean sc flow inh outer nm ds a body d s. cbn [walk_stmt]. destruct (f_prop _); reflexivity. Qed.
 
 Lemma string_after_class_ignored : forall clean sc flow inh outer nm bs body d s,
     let s1 := walk_stmt clean (Class nm bs body) sc flow inh outer s in
